@@ -182,7 +182,11 @@ func (m *Message) Get(fd protoreflect.FieldDescriptor) protoreflect.Value {
 		if fd != m.ext[num] {
 			return fd.(protoreflect.ExtensionTypeDescriptor).Type().Zero()
 		}
-		return m.known[num]
+		if v := m.known[num]; !fd.IsList() || v.List().Len() > 0 {
+			return v
+		}
+		// Not populated: hand out a read-only empty list rather than the stored one.
+		return fd.(protoreflect.ExtensionTypeDescriptor).Type().Zero()
 	}
 	if v, ok := m.known[num]; ok {
 		switch {
